@@ -617,7 +617,7 @@ def ed25519Op (legacy : Bool) (op : String) (args : List String) : M Resp := do
     let vk := b.drop 32
     if (decompress vk).isNone then return Resp.err
     if Ed25519.publicKeyWith ops (b.take 32) == vk then ok [hexEncode vk] else pure Resp.err
-  | "eds.vk", [b] => do
+  | "eds.vk", [b] | "eds.vk_slice", [b] => do
     let b ← bytesN 32 b
     match decompress b with
     | some p => ok [hexEncode b, fmtBool (ops.smallOrder p)]
@@ -627,9 +627,9 @@ def ed25519Op (legacy : Bool) (op : String) (args : List String) : M Resp := do
     -- the crate; it is exercised through `eds.verify*`)
     let b ← hexArg b
     if b.length == 64 then ok [hexEncode b] else pure Resp.err
-  | "eds.verify", [vk, msg, sig] =>
+  | "eds.verify", [vk, msg, sig] | "eds.verify_slice", [vk, msg, sig] =>
     okOrErr (Ed25519.verifyWith ops legacy false (← bytesN 32 vk) (← hexArg msg) (← bytesN 64 sig))
-  | "eds.verify_strict", [vk, msg, sig] =>
+  | "eds.verify_strict", [vk, msg, sig] | "eds.verify_strict_slice", [vk, msg, sig] =>
     okOrErr (Ed25519.verifyWith ops legacy true (← bytesN 32 vk) (← hexArg msg) (← bytesN 64 sig))
   | "eds.verify_ph", [vk, msg, ctx, sig] =>
     okOrErr (Ed25519.verifyPhWith ops legacy false (← bytesN 32 vk) (← hexArg msg) (← ctxArg ctx)
